@@ -224,6 +224,19 @@ static void wide_phases()
     });
 }
 
+// A conversion_result is an out-parameter: what an earlier conversion left in it must not show.  Two calls in three get
+// an object that was used before (by a fully matching, resp. a partly matching conversion).
+static void predirty(ST::conversion_result &r)
+{
+    static unsigned n = 0;
+    static const ST::string full("42"), part("7x");
+    switch (n++ % 3) {
+    case 0: break;
+    case 1: (void)full.to_int(r); vrt::count("parse.result_object_reused"); break;
+    default: (void)part.to_ulong_long(r, 10); vrt::count("parse.result_object_reused"); break;
+    }
+}
+
 // ---------------------------------------------------------------- parsing arbitrary text
 static void parse_case(const S &text, int base)
 {
@@ -249,6 +262,7 @@ static void parse_case(const S &text, int base)
         flags(endp, wok, wfull);                                                                                             \
         if (empty) want = 0;                                                                                                 \
         ST::conversion_result r;                                                                                             \
+        predirty(r);                                                                                                         \
         RT got = st->libcall_r;                                                                                              \
         RT got2 = st->libcall;                                                                                               \
         vrt::evals(2);                                                                                                       \
